@@ -59,8 +59,8 @@ BOUNDS = {
         "nodes": {"fragvars": 6, "sdl": 4}, "depth": 3, "seeds": 10, "cross_process_every": 8,
     },
     "thorough": {
-        "quoted_len": 3, "block_len": 4, "block_len_long": 5, "long_hosts": 3,
-        "nodes": {"fragvars": 8, "sdl": 6}, "depth": 4, "seeds": 10, "cross_process_every": 4,
+        "quoted_len": 3, "block_len": 4, "block_len_long": 5, "long_hosts": 6,
+        "nodes": {"fragvars": 8, "sdl": 7}, "depth": 4, "seeds": 10, "cross_process_every": 4,
     },
 }
 TIME_CAP = {"quick": 150, "thorough": 1500}
